@@ -365,7 +365,7 @@ impl PubSubManager {
 }
 
 /// Check if a pattern matches a channel name
-/// Supports glob-style patterns with * and ?
+/// Supports glob-style patterns with *, ?, [...] character classes and \\ escapes
 pub fn pattern_matches(pattern: &[u8], channel: &[u8]) -> bool {
     let mut p_idx = 0;
     let mut c_idx = 0;
@@ -387,6 +387,43 @@ pub fn pattern_matches(pattern: &[u8], channel: &[u8]) -> bool {
                     star_match_idx = c_idx;
                     p_idx += 1;
                     continue;
+                }
+                b'[' => {
+                    // Character class: [abc], ranges [a-c], negation [^abc], escapes [\\]]
+                    let mut i = p_idx + 1;
+                    let negate = i < pattern.len() && pattern[i] == b'^';
+                    if negate {
+                        i += 1;
+                    }
+                    let mut matched = false;
+                    let mut closed = false;
+                    while i < pattern.len() {
+                        if pattern[i] == b'\\' && i + 1 < pattern.len() {
+                            if pattern[i + 1] == channel[c_idx] {
+                                matched = true;
+                            }
+                            i += 2;
+                        } else if pattern[i] == b']' {
+                            closed = true;
+                            break;
+                        } else if i + 2 < pattern.len() && pattern[i + 1] == b'-' && pattern[i + 2] != b']' {
+                            let (lo, hi) = if pattern[i] <= pattern[i + 2] { (pattern[i], pattern[i + 2]) } else { (pattern[i + 2], pattern[i]) };
+                            if channel[c_idx] >= lo && channel[c_idx] <= hi {
+                                matched = true;
+                            }
+                            i += 3;
+                        } else {
+                            if pattern[i] == channel[c_idx] {
+                                matched = true;
+                            }
+                            i += 1;
+                        }
+                    }
+                    if closed && matched != negate {
+                        p_idx = i + 1;
+                        c_idx += 1;
+                        continue;
+                    }
                 }
                 b'\\' if p_idx + 1 < pattern.len() => {
                     // Escaped character
